@@ -292,6 +292,15 @@ func (conn *Conn) recv() {
 			})
 		}
 	}
+	if !conn.directIO {
+		// Responses that were completely received before the connection ended are
+		// still waiting on the decode queue: let them complete their calls before
+		// the sweep below fails whatever is left. (The queue is FIFO with a single
+		// worker, so the sentinel runs after every frame read so far.)
+		drained := make(chan struct{})
+		pipeline.Schedule(func() { close(drained) })
+		<-drained
+	}
 	conn.mutex.Lock()
 	conn.shutdown = true
 	vhook("c.eof", conn, nil, vbool(err == io.EOF), 0)
